@@ -21,6 +21,8 @@ type Ctx struct {
 	Tier string
 	// ids of the rules already run for this property (an id is used once)
 	seenRules map[string]bool
+	// edges mustPrecede does not follow (set around a call by the rule that knows why)
+	precedeCut ir.Cut
 	cur       string // current rule id
 	wp        *whole // lazily built whole-program facts (call graph etc.)
 
